@@ -214,7 +214,8 @@ def lambertBattin(
             beta_e *= -1.0
         a_min = s * 0.5
         t_min = sqrt(a_min**3 / mu) * (PI - beta_e + sin(beta_e))
-        alpha_e = 2.0 * arcsin(sqrt(s / (2.0 * sma)))
+        # minimum-energy transfer: s / (2 * sma) is exactly one and may round just above it
+        alpha_e = 2.0 * arcsin(sqrt(min(1.0, s / (2.0 * sma))))
         if delta_time > t_min:
             alpha_e = 2.0 * PI - alpha_e
         delta_e = alpha_e - beta_e
